@@ -34,7 +34,10 @@ func Testing_inject_variable(
 	// so we turn off the literal flag to false.
 	// Unfortunately value.Value interface does not have to change the literal flag
 	// so need type assertion for primitive values - it's annoying but just special case.
-	switch t := args[1].(type) {
+	// The value is copied: the variable must neither follow later assignments to the local variable
+	// it was read from nor change a shared declaration (backend, acl) by turning off its literal flag
+	injected := args[1].Copy()
+	switch t := injected.(type) {
 	case *value.Acl:
 		t.Literal = false
 	case *value.Backend:
@@ -55,11 +58,11 @@ func Testing_inject_variable(
 		t.Literal = false
 		// Note: *value.Time value could not be specified as literal
 	}
-	ctx.OverrideVariables[name.Value] = args[1]
+	ctx.OverrideVariables[name.Value] = injected
 
 	// If overriding request protocol, also set req.is_ssl accordingly
 	if name.Value == "req.protocol" {
-		if s, ok := args[1].(*value.String); ok {
+		if s, ok := injected.(*value.String); ok {
 			ctx.OverrideVariables["req.is_ssl"] = &value.Boolean{Value: s.Value == "https"}
 		}
 	}
